@@ -4,7 +4,6 @@ use crate::fw::*;
 use crate::vcore::arena::*;
 use crate::vcore::dso::*;
 use crate::vcore::dumper::mapping;
-use crate::vcore::md;
 use minidump_writer::mem_writer::Buffer;
 use minidump_writer::minidump_writer::DirectAuxvDumpInfo;
 use minidump_writer::verif_api::{write_dso_debug_stream, AuxvDumpInfo};
